@@ -299,7 +299,10 @@ def run(prog, R):
                 missing = [o for o in OFFSETS[fmt] if o not in written and o not in unknown_touch]
                 unjudged = [o for o in OFFSETS[fmt] if o not in written and o in unknown_touch]
                 wrong = [o for o, v in written.items() if v is False]
-                if not written and unknown_touch:
+                if consume_amount_is_opaque(prog, b, ct, du) and (missing or (not written)):
+                    R.undecided('UNIT-3', b, 'consume#%d:all-offsets-shifted' % (ci + 1), site(b, ct.line),
+                                'the consumed amount is a cached quantity / parameter (possibly the whole buffer: a discard, not a re-basing): not judged')
+                elif not written and unknown_touch:
                     R.undecided('UNIT-3', b, 'consume#%d:all-offsets-shifted' % (ci + 1), site(b, ct.line),
                                 'the stored offsets %s are handed to calls by &mut (mem::replace, for_each, a helper): how they are re-based is not visible to this rule' % sorted('.'.join(o) for o in unknown_touch))
                 elif not written:
@@ -498,7 +501,7 @@ def unit3b(prog, R):
             valid.setdefault(hp['incv'], set()).update(w)
     for p in rp:
         if p not in valid:
-            R.add('UNIT-3b', search, 'stage:%s' % p, False, site(search, search.span['lo']), 'the fresh search never stops in part %s (cannot determine which offsets are valid there)' % p)
+            R.undecided('UNIT-3b', search, 'stage:%s' % p, site(search, search.span['lo']), 'the fresh search is not seen to stop in part %s in this shape of the code (cannot determine which offsets are valid there): not judged' % p)
             continue
         arg = E('fastq::RecordPos', p)
         hp_in = h0.copy()
